@@ -222,12 +222,14 @@ theorem final_bound : 2 * (1 / 2 ^ 43 : ℝ) + Real.pi * Real.sqrt ((3 / 2 ^ 87)
         linarith
     _ ≤ 1 / 2 ^ 40 := by norm_num
 
-/-- [T] the central angle of the engine, GIVEN the arcsine certificate, is within 2^-40 rad of
-`2·arcsin √h` over the reals. -/
-theorem central_angle_close (a b : P2 ℚ) (ha : |a.2| ≤ 90) (hb : |b.2| ≤ 90) (hl : |b.1 - a.1| ≤ 1000)
+/-- the engine's doubled arcsine `2a` (given the certificate): within 2^-43 of `[0, π]`, and its cosine
+within 3·2^-87 of `1 − 2h` — every step up to here is Lipschitz -/
+theorem central_cos (a b : P2 ℚ) (ha : |a.2| ≤ 90) (hb : |b.2| ≤ 90) (hl : |b.1 - a.1| ≤ 1000)
     (hc : havCert a b = true) :
-    |(((1 + 1) * asinQ (sqrtQ (havH ratTrig a b)) : ℚ) : ℝ) -
-      (1 + 1) * Real.arcsin (Real.sqrt (hReal (castP a) (castP b)))| ≤ 1 / 2 ^ 40 := by
+    -(1 / 2 ^ 43 : ℝ) ≤ 2 * ((asinQ (sqrtQ (havH ratTrig a b)) : ℚ) : ℝ) ∧
+    2 * ((asinQ (sqrtQ (havH ratTrig a b)) : ℚ) : ℝ) ≤ Real.pi + 1 / 2 ^ 43 ∧
+    |Real.cos (2 * ((asinQ (sqrtQ (havH ratTrig a b)) : ℚ) : ℝ)) - (1 - 2 * hReal (castP a) (castP b))|
+      ≤ 3 / 2 ^ 87 := by
   set hq : ℚ := havH ratTrig a b with hqdef
   set h : ℝ := hReal (castP a) (castP b) with hdef
   obtain ⟨h0, h1⟩ := hReal_range a b ha hb
@@ -289,15 +291,129 @@ theorem central_angle_close (a b : P2 ℚ) (ha : |a.2| ≤ 90) (hb : |b.2| ≤ 9
     rw [e2]
     have : (2 : ℝ) * (3 * (1 / 2 ^ 90 + 1 / 2 ^ 92) + (1 / 2 ^ 87 + 5 / 2 ^ 100)) ≤ 3 / 2 ^ 87 := by norm_num
     linarith
-  have hpost := arccos_post (2 * A) (1 - 2 * h) (1 / 2 ^ 43) (3 / 2 ^ 87) (by positivity)
-    (by have : (1 : ℝ) / 2 ^ 43 = 2 * (1 / 2 ^ 44) := by norm_num
-        linarith)
-    (by have : (1 : ℝ) / 2 ^ 43 = 2 * (1 / 2 ^ 44) := by norm_num
-        linarith)
+  have e43 : (1 : ℝ) / 2 ^ 43 = 2 * (1 / 2 ^ 44) := by norm_num
+  exact ⟨by linarith, by linarith, hcos⟩
+
+/-- [T] the central angle of the engine, GIVEN the arcsine certificate, is within 2^-40 rad of
+`2·arcsin √h` over the reals. -/
+theorem central_angle_close (a b : P2 ℚ) (ha : |a.2| ≤ 90) (hb : |b.2| ≤ 90) (hl : |b.1 - a.1| ≤ 1000)
+    (hc : havCert a b = true) :
+    |(((1 + 1) * asinQ (sqrtQ (havH ratTrig a b)) : ℚ) : ℝ) -
+      (1 + 1) * Real.arcsin (Real.sqrt (hReal (castP a) (castP b)))| ≤ 1 / 2 ^ 40 := by
+  obtain ⟨h0, h1⟩ := hReal_range a b ha hb
+  obtain ⟨r1, r2, hcos⟩ := central_cos a b ha hb hl hc
+  have hpost := arccos_post _ _ (1 / 2 ^ 43) (3 / 2 ^ 87) (by positivity) r1 r2
     (by linarith) (by linarith) hcos
-  rw [← two_arcsin_sqrt h h0 h1] at hpost
-  have e : (((1 + 1) * asinQ s : ℚ) : ℝ) = 2 * A := by push_cast; ring
+  rw [← two_arcsin_sqrt _ h0 h1] at hpost
+  have e : (((1 + 1) * asinQ (sqrtQ (havH ratTrig a b)) : ℚ) : ℝ) =
+      2 * ((asinQ (sqrtQ (havH ratTrig a b)) : ℚ) : ℝ) := by push_cast; ring
   rw [e]
   exact le_trans hpost final_bound
+
+/-! ### general position: neither nearly coincident nor nearly antipodal -/
+
+/-- inverting the cosine away from its flat ends: Lipschitz with constant `π²/(4δ)` -/
+theorem cos_inv_interior (A C δ η : ℝ) (hδ : 0 < δ) (hA1 : δ ≤ A) (hA2 : A ≤ Real.pi - δ)
+    (hC1 : δ ≤ C) (hC2 : C ≤ Real.pi - δ) (h : |Real.cos A - Real.cos C| ≤ η) :
+    |A - C| ≤ Real.pi ^ 2 / (4 * δ) * η := by
+  have hpi := Real.pi_pos
+  have hδ2 : δ ≤ Real.pi / 2 := by linarith
+  -- ordered version
+  have core : ∀ X Y : ℝ, δ ≤ X → X ≤ Y → Y ≤ Real.pi - δ → Real.cos X - Real.cos Y ≤ η →
+      Y - X ≤ Real.pi ^ 2 / (4 * δ) * η := by
+    intro X Y hX hXY hY hc
+    have e : Real.cos X - Real.cos Y = 2 * Real.sin ((X + Y) / 2) * Real.sin ((Y - X) / 2) := by
+      rw [Real.cos_sub_cos]
+      have : (X - Y) / 2 = -((Y - X) / 2) := by ring
+      rw [this, Real.sin_neg]; ring
+    have s1 : Real.sin δ ≤ Real.sin ((X + Y) / 2) := sin_ge_on hδ.le (by linarith) (by linarith)
+    have j1 := Real.mul_le_sin hδ.le hδ2
+    have j2 := Real.mul_le_sin (x := (Y - X) / 2) (by linarith) (by linarith)
+    have hD : 0 ≤ (Y - X) / 2 := by linarith
+    have p1 : 0 ≤ 2 / Real.pi * δ := by positivity
+    have p2 : 0 ≤ 2 / Real.pi * ((Y - X) / 2) := by positivity
+    have hprod : (2 / Real.pi * δ) * (2 / Real.pi * ((Y - X) / 2)) ≤
+        Real.sin ((X + Y) / 2) * Real.sin ((Y - X) / 2) :=
+      mul_le_mul (le_trans j1 s1) j2 p2 (le_trans p1 (le_trans j1 s1))
+    have hη : 2 * ((2 / Real.pi * δ) * (2 / Real.pi * ((Y - X) / 2))) ≤ η := by
+      rw [e] at hc; nlinarith
+    have e2 : 2 * ((2 / Real.pi * δ) * (2 / Real.pi * ((Y - X) / 2))) = (4 * δ / Real.pi ^ 2) * (Y - X) := by
+      field_simp; ring
+    rw [e2] at hη
+    have hpos : 0 < 4 * δ / Real.pi ^ 2 := by positivity
+    have : Y - X ≤ η / (4 * δ / Real.pi ^ 2) := by
+      rw [le_div_iff₀ hpos]; linarith
+    have e3 : η / (4 * δ / Real.pi ^ 2) = Real.pi ^ 2 / (4 * δ) * η := by field_simp
+    rw [e3] at this; exact this
+  rw [abs_le] at h
+  rcases le_total A C with hAC | hCA
+  · have := core A C hA1 hAC hC2 h.2
+    have hη0 : 0 ≤ Real.pi ^ 2 / (4 * δ) * η := le_trans (by linarith) this
+    rw [abs_le]; constructor <;> linarith
+  · have := core C A hC1 hCA hA2 (by linarith [h.1])
+    have hη0 : 0 ≤ Real.pi ^ 2 / (4 * δ) * η := le_trans (by linarith) this
+    rw [abs_le]; constructor <;> linarith
+
+/-- `arccos x ∈ [δ, π − δ]` when `|x| ≤ 1 − δ²/2` -/
+theorem arccos_interior (x δ : ℝ) (hδ0 : 0 ≤ δ) (hδ : δ ≤ Real.pi)
+    (h1 : x ≤ 1 - δ ^ 2 / 2) (h2 : -(1 - δ ^ 2 / 2) ≤ x) :
+    δ ≤ Real.arccos x ∧ Real.arccos x ≤ Real.pi - δ := by
+  have hc := Real.one_sub_sq_div_two_le_cos (x := δ)
+  constructor
+  · have := Real.arccos_le_arccos (le_trans h1 hc)
+    rwa [Real.arccos_cos hδ0 hδ] at this
+  · have hx : Real.cos (Real.pi - δ) ≤ x := by rw [Real.cos_pi_sub]; linarith
+    have := Real.arccos_le_arccos hx
+    rwa [Real.arccos_cos (by linarith) (by linarith)] at this
+
+/-- [T] the central angle in general position: if the engine's `h` is at least `δ²/4 + 2^-87` away from
+0 and 1 and its arcsine at least `δ/2` away from 0 and `piQ/2` (all four are rational comparisons on
+model values), the error is at most `2^-84/δ`. -/
+theorem central_angle_close_interior (δ : ℚ) (hδ0 : 0 < δ) (hδ1 : δ ≤ 1) (a b : P2 ℚ)
+    (ha : |a.2| ≤ 90) (hb : |b.2| ≤ 90) (hl : |b.1 - a.1| ≤ 1000) (hc : havCert a b = true)
+    (hh1 : δ ^ 2 / 4 + 1 / 2 ^ 87 ≤ havH ratTrig a b) (hh2 : havH ratTrig a b ≤ 1 - δ ^ 2 / 4 - 1 / 2 ^ 87)
+    (ha1 : δ / 2 ≤ asinQ (sqrtQ (havH ratTrig a b))) (ha2 : asinQ (sqrtQ (havH ratTrig a b)) ≤ piQ / 2 - δ / 2) :
+    |(((1 + 1) * asinQ (sqrtQ (havH ratTrig a b)) : ℚ) : ℝ) -
+      (1 + 1) * Real.arcsin (Real.sqrt (hReal (castP a) (castP b)))| ≤ 1 / ((δ : ℝ) * 2 ^ 84) := by
+  obtain ⟨h0, h1⟩ := hReal_range a b ha hb
+  obtain ⟨_, _, hcos⟩ := central_cos a b ha hb hl hc
+  have hΔ := h_close a b ha hb hl
+  set h : ℝ := hReal (castP a) (castP b) with hdef
+  set A : ℝ := ((asinQ (sqrtQ (havH ratTrig a b)) : ℚ) : ℝ) with hA
+  have hδR : (0 : ℝ) < (δ : ℝ) := by exact_mod_cast hδ0
+  have hδ1R : (δ : ℝ) ≤ 1 := by exact_mod_cast hδ1
+  have hpi3 : (3 : ℝ) < Real.pi := by
+    have : ((3 : ℚ) : ℝ) < ((piQ : ℚ) : ℝ) := Rat.cast_lt.mpr piQ_bounds.1
+    push_cast at this; linarith [piQ_lt_pi]
+  have hh1R : (δ : ℝ) ^ 2 / 4 + 1 / 2 ^ 87 ≤ ((havH ratTrig a b : ℚ) : ℝ) := by
+    have := (Rat.cast_le (K := ℝ)).mpr hh1; push_cast at this; exact this
+  have hh2R : ((havH ratTrig a b : ℚ) : ℝ) ≤ 1 - (δ : ℝ) ^ 2 / 4 - 1 / 2 ^ 87 := by
+    have := (Rat.cast_le (K := ℝ)).mpr hh2; push_cast at this; exact this
+  have ha1R : (δ : ℝ) / 2 ≤ A := by
+    have := (Rat.cast_le (K := ℝ)).mpr ha1; push_cast at this; exact this
+  have ha2R : A ≤ (piQ : ℝ) / 2 - (δ : ℝ) / 2 := by
+    have := (Rat.cast_le (K := ℝ)).mpr ha2; push_cast at this; exact this
+  rw [abs_le] at hΔ
+  have hC := arccos_interior (1 - 2 * h) (δ : ℝ) hδR.le (by linarith) (by linarith [hΔ.1, hΔ.2])
+    (by linarith [hΔ.1, hΔ.2])
+  have hcos' : |Real.cos (2 * A) - Real.cos (Real.arccos (1 - 2 * h))| ≤ 3 / 2 ^ 87 := by
+    rw [Real.cos_arccos (by linarith) (by linarith)]; exact hcos
+  have hpost := cos_inv_interior (2 * A) (Real.arccos (1 - 2 * h)) (δ : ℝ) (3 / 2 ^ 87) hδR
+    (by linarith) (by linarith [piQ_lt_pi]) hC.1 hC.2 hcos'
+  rw [← two_arcsin_sqrt h h0 h1] at hpost
+  have e : (((1 + 1) * asinQ (sqrtQ (havH ratTrig a b)) : ℚ) : ℝ) = 2 * A := by push_cast; ring
+  rw [e]
+  refine le_trans hpost ?_
+  have hpi2 : Real.pi ^ 2 ≤ 10 := by
+    have : Real.pi ≤ 3.15 := by linarith [pi_lt_piQ_add, (show ((piQ : ℚ) : ℝ) < ((3142 / 1000 : ℚ) : ℝ) from
+      Rat.cast_lt.mpr piQ_bounds.2), (show ((3142 / 1000 : ℚ) : ℝ) + 2 / 10 ^ 40 ≤ 3.15 by norm_num)]
+    nlinarith [Real.pi_pos]
+  rw [div_mul_eq_mul_div, div_le_div_iff₀ (by positivity) (by positivity)]
+  have : Real.pi ^ 2 * (3 / 2 ^ 87) * ((δ : ℝ) * 2 ^ 84) ≤ 10 * (3 / 2 ^ 87) * ((δ : ℝ) * 2 ^ 84) := by
+    apply mul_le_mul_of_nonneg_right _ (by positivity)
+    apply mul_le_mul_of_nonneg_right hpi2 (by positivity)
+  have e5 : (10 : ℝ) * (3 / 2 ^ 87) * ((δ : ℝ) * 2 ^ 84) = (30 / 8) * (δ : ℝ) := by ring
+  rw [e5] at this
+  linarith
 
 end Geo.Proofs.C16Q
